@@ -11,9 +11,15 @@ class C10(TieCheck):
     area = "Pattern"
     props = "Props_C10.v"
     extra_props = [("Compose", "Props_Compose.v")]
+    # tie A (checks/GenTie.py, docs/Gen.md): gotrans regenerates coq/Gen/GenParse.v from Router.parseRoute on every
+    # run; coq/Gen/BridgeC10.v proves it equal to ParseRoute.parseRoute on all inputs.  TieCheck.run calls
+    # GenTie.tie("C10") (a refusal or a broken bridge lemma is a "generated-model" problem => VIOLATION) and adds
+    # GenTie.props("C10") = Props_Gen.v, Props_Gen_C10.v to the property files re-checked with Props_C10.v.
+    gentie = "C10"
     harness = "c10"
     shards = 32
     extra_trust = [
+        "tie A: harness/cmd/gotrans translates Router.parseRoute (fox.go) into coq/Gen/GenParse.v on every run (Go subset and the meaning of the emitted primitives: docs/Gen.md, coq/Gen/GoSem.v, GoSemErr.v); coq/Gen/Props_Gen_C10.v: the generated definition equals ParseRoute.parseRoute on all inputs (limits in the uint16 range)",
         "model: coq/Pattern/ParseRoute.v transliterates Router.parseRoute (fox.go:662-854), coq/Pattern/ParseWildcard.v transliterates parseWildcard (node.go:876-930); "
         "spec: coq/Pattern/Grammar.v (syntax tree + well-formedness, written from the property text and README), coq/Pattern/Token.v",
         "thorough tier, lengths 6..7: observations are compared through a 61-bit polynomial digest per 4-byte prefix (a differing block is expanded into per-string cases)",
